@@ -118,6 +118,10 @@ pub mod clock {
     }
 }
 
+/// Capacity of the bounded event channels between the library's tasks (protocol event channels, the notification
+/// handle's channels): the harness fills them to test back-pressure and must not hard-code the number.
+pub const DEFAULT_CHANNEL_SIZE: usize = crate::DEFAULT_CHANNEL_SIZE;
+
 /// Drop-in replacement for `futures_timer::Delay` on tokio's clock, so that the notification protocol's negotiation
 /// and validation timers run on the (pausable) runtime clock like every other timer of the crate.
 pub mod timer {
